@@ -26,7 +26,8 @@ struct Config {
   int timeout;
   int spacing;
   int firstOutcome;  // 0 first victim's kill succeeds, 1 signals nothing (fallback)
-  bool recursiveTree;
+  bool recursiveTree;   // kill action configured with cgroup=p recursive=true (victim != configured kill root)
+  double killLatency;   // virtual seconds per kill(2): time passes inside a tick, so the window can close between candidates
 };
 
 struct Adaptor : Oomd::DropInServiceAdaptor {
@@ -79,6 +80,7 @@ struct C07 : vr::Driver {
               c.spacing = sp;
               c.firstOutcome = fo;
               c.recursiveTree = false;
+              c.killLatency = 0;
               switch (hv) {
                 case 0: c.name = "no-hooks"; break;
                 case 1:
@@ -97,6 +99,21 @@ struct C07 : vr::Driver {
                   break;
               }
               cfgs.push_back(c);
+              // variants: recursive search below the configured root; kills that take time
+              bool recV = th ? (sp == 1) : (hv == 1 && to == 2 && sp == 1);
+              bool latV = th ? (to != 0 && sp == 1 && hv != 0) : (hv == 1 && fo == 1 && to != 0 && sp == 1);
+              if (recV) {
+                Config c2 = c;
+                c2.recursiveTree = true;
+                c2.name += "/recursive";
+                cfgs.push_back(c2);
+              }
+              if (latV) {
+                Config c2 = c;
+                c2.killLatency = 1.1;
+                c2.name += "/slow-kill";
+                cfgs.push_back(c2);
+              }
             }
   }
   size_t count() override { return cfgs.size(); }
@@ -107,6 +124,8 @@ struct C07 : vr::Driver {
     for (auto& h : c.base) o << " " << h.id << "=" << h.pattern;
     for (auto& d : c.dropins)
       for (auto& h : d) o << " " << h.tag << ":" << h.id << "=" << h.pattern;
+ if (c.recursiveTree) o << " kill action cgroup=p recursive=true";
+    if (c.killLatency > 0) o << " kill(2) takes " << c.killLatency << "s";
     o << " prekill_hook_timeout=" << c.timeout << " tick spacing=" << c.spacing << "s first victim kill " << (c.firstOutcome ? "signals nothing" : "succeeds")
       << "; explorer: hook poll answers x per-tick events {none, victim removed, victim re-created, fallback removed}, <= " << maxDev << " deviations";
     return o.str();
@@ -132,7 +151,9 @@ struct C07 : vr::Driver {
       execs++;
       ks::Scenario s;
       s.plugin = "kill_by_swap_usage";
-      s.args["cgroup"] = "p/*";
+      s.args["cgroup"] = c.recursiveTree ? "p" : "p/*";
+      if (c.recursiveTree) s.args["recursive"] = "true";
+      s.killLatency = c.killLatency;
       s.ticks = 5;
       s.tickSpacing = c.spacing;
       s.hookTimeout = c.timeout;
@@ -141,7 +162,7 @@ struct C07 : vr::Driver {
         Cg g;
         g.rel = names[i];
         g.nprocs = i == 0 ? 0 : 2;
-        g.swap = i == 0 ? 0 : (long long)(40 - 10 * i) << 20;
+        g.swap = i == 0 ? (60LL << 20) : (long long)(40 - 10 * i) << 20;
         g.outcome = (i == 1 && c.firstOutcome) ? 1 : 0;
         s.cgs.push_back(g);
       }
@@ -279,6 +300,29 @@ struct C07 : vr::Driver {
         double D = deadlineAt.count(iv.fireTick) ? deadlineAt[iv.fireTick] : 1e18;
         if (iv.fireTime > D + 1e-9) return fail("fired-after-window", "hook fired at t=" + std::to_string(iv.fireTime) + " after the chain's window closed at " + std::to_string(D));
       }
+      // the cgroup attacked once an invocation is over is the cgroup the hook was fired for
+      for (long id : order) {
+        auto& iv = invs[id];
+        if (!iv.destroyed) continue;
+        int dTick = 0;
+        for (auto& h : o.hooks)
+          if (h.kind == "destroy" && h.inv == id) dTick = h.tick;
+        bool changed = false;
+        for (auto& e : evs) {
+          std::string hit = e.kind == 3 ? "p/b" : "p/a";
+          if (e.tick > iv.fireTick && e.tick <= dTick && (iv.cg == hit || iv.cg.compare(0, hit.size() + 1, hit + "/") == 0)) changed = true;
+        }
+        if (changed) continue;
+        size_t nextFire = (size_t)-1;
+        for (long id2 : order)
+          if (invs[id2].fireEff >= iv.destroyEff && id2 != id) nextFire = std::min(nextFire, invs[id2].fireEff);
+        for (auto& a : o.attempts) {
+          if (a.tick != dTick || a.effBegin < iv.destroyEff || a.effBegin >= nextFire) continue;
+          if (a.victim != iv.cg)
+            return fail("attacked-other-than-hooked-victim", "the hook ran for " + iv.cg + " but the attack that followed its invocation hit " + a.victim);
+          break;
+        }
+      }
       // per attempt
       for (auto& a : o.attempts) {
         // fires on this victim between the previous attempt (or start of its chain) and this attempt
@@ -300,7 +344,9 @@ struct C07 : vr::Driver {
           if (!between) mine.push_back(id);
         }
         if (mine.size() > 1) return fail("more-than-one-hook-per-victim", std::to_string(mine.size()) + " hooks fired for one attack on " + a.victim);
-        double tAtt = timeAt.count(a.tick) ? timeAt[a.tick] : 0, D = deadlineAt.count(a.tick) ? deadlineAt[a.tick] : 1e18;
+        // the moment of the attack: virtual time of the attempt's first effect (time may pass inside a tick when kills are slow)
+        double tAtt = a.effBegin < o.effects.size() ? (o.effects[a.effBegin].tNs - vb::kEpochNs) / 1e9 : (timeAt.count(a.tick) ? timeAt[a.tick] : 0);
+        double D = deadlineAt.count(a.tick) ? deadlineAt[a.tick] : 1e18;
         if (mine.empty()) {
           std::string want = expectedHook(a.victim);
           if (!want.empty() && tAtt < D - 1e-9)
@@ -357,11 +403,11 @@ struct C07 : vr::Driver {
   std::string rule() override {
     return "per configuration (hook list: none / base[H1,H2] / base+drop-in / base+two drop-in tags; 6 pattern rows incl. exact, '*' component, "
            "ancestor, descendant, non-matching, comma list; prekill_hook_timeout {0,2,5}; tick spacing {1,3}s; first victim's kill succeeds or "
-           "signals nothing so the hook fires again for the fallback victim): the explorer enumerates every sequence of hook poll answers "
+           "signals nothing so the hook fires again for the fallback victim; variants: kill action configured recursively on the parent so the victim differs from the kill root, and kill(2) taking 1.1 virtual seconds so the window can close between two candidates of one tick): the explorer enumerates every sequence of hook poll answers "
            "{finished, running} and per-tick events {none, victim removed, victim removed+re-created, fallback candidate removed} with <= k "
            "deviations over 5 ticks through the real Oomd::run; monitor: <=1 fire per attack, fired hook = first in priority order matching under the "
            "reference three-case relation, no fire after the window, no attack before finished-or-window-closed, invocation destroyed before the "
-           "first signal, never two invocations alive, no attack on a victim whose identity changed during the wait; states = distinct observable "
+           "first signal, never two invocations alive, no attack on a victim whose identity changed during the wait, the attack following an invocation hits the cgroup the hook ran for; states = distinct observable "
            "hook/attack histories";
   }
   Json::Value bounds() override {
